@@ -18,6 +18,7 @@ func init() {
 			Assumptions: []string{"encoding/json round-trips the tagged fields", "strconv.ParseBool/Atoi/ParseInt invert fmt's %v/%d"},
 			Trusted:     []string{"go/packages", "go/types", "go/ssa", "encoding/json"},
 			RuleDoc: map[string]string{
+				"R9.state":  "no memory of earlier calls: on the call tree only frozen package-level variables are touched (known exceptions listed with reasons), and no package-level object is handed out",
 				"R1.legacy": "legacy writer/reader key-field tables equal",
 				"R2.gate":   "same sanity check on encode and JSON decode; legacy only on JSON error",
 				"R3.tags":   "JSON tag uniqueness; sanity check covers exactly the required fields",
@@ -30,6 +31,7 @@ func init() {
 }
 
 func runC15(c *Ctx) {
+	stateRule(c, "R9.state", []*ssa.Function{c.w.Method("message", "Attributes", "Marshal"), c.w.Func("message", "Unmarshal")}, knownState)
 	w := c.w
 	tablesC15(c)
 	marshal := w.Method("message", "Attributes", "Marshal")
